@@ -175,6 +175,13 @@ Definition record_name (p : params) : option bytes :=
 Definition is_listlike (t : rty) : bool :=
   match t with RList _ _ _ | RReg _ _ _ _ => true | _ => false end.
 
+(* "key": T for each field (recordlookup and types have the same length) *)
+Fixpoint keyed (ks : list bytes) (ts : list bytes) : list bytes :=
+  match ks, ts with
+  | k :: ks', x :: ts' => (quote k ++ p_colon ++ x) :: keyed ks' ts'
+  | _, _ => []
+  end.
+
 Fixpoint type_tostring (t : rty) {struct t} : bytes :=
   let with_ts (p : params) (s : bytes) (body : bytes) : bytes :=
     match s with [] => wrap_categorical p body | _ => wrap_categorical p s end in
@@ -201,20 +208,14 @@ Fixpoint type_tostring (t : rty) {struct t} : bytes :=
                    ++ (if parameters_empty p then [] else p_comma ++ string_parameters p) ++ [93])
   | RRec p s ks l =>
       let types := map type_tostring l in
-      let keyed (ks : list bytes) : list bytes :=
-        (fix go (ks : list bytes) (ts : list bytes) : list bytes :=
-           match ks, ts with
-           | k :: ks', x :: ts' => (quote k ++ p_colon ++ x) :: go ks' ts'
-           | _, _ => []
-           end) ks types in
       with_ts p s
         (match record_name p with
          | Some name =>
-             name ++ [91] ++ sep_concat p_comma (match ks with Some ks => keyed ks | None => types end) ++ [93]
+             name ++ [91] ++ sep_concat p_comma (match ks with Some ks => keyed ks types | None => types end) ++ [93]
          | None =>
              if parameters_empty p then
                match ks with
-               | Some ks => [123] ++ sep_concat p_comma (keyed ks) ++ [125]
+               | Some ks => [123] ++ sep_concat p_comma (keyed ks types) ++ [125]
                | None => [40] ++ sep_concat p_comma types ++ [41]
                end
              else
@@ -285,33 +286,41 @@ Fixpoint unquote_body (fuel : nat) (s : bytes) : res (bytes * bytes) :=
   | S fuel' =>
       match s with
       | [] => Err EValue
-      | 34 :: r => Ok ([], r)
-      | 92 :: e :: r =>
-          let cont (c : Z) (r : bytes) := do xr <- unquote_body fuel' r; Ok (c :: fst xr, snd xr) in
-          if e =? 34 then cont 34 r
-          else if e =? 92 then cont 92 r
-          else if e =? 98 then cont 8 r
-          else if e =? 102 then cont 12 r
-          else if e =? 110 then cont 10 r
-          else if e =? 114 then cont 13 r
-          else if e =? 116 then cont 9 r
-          else if e =? 117 then
+      | c :: r =>
+          let cont (x : Z) (r : bytes) := do xr <- unquote_body fuel' r; Ok (x :: fst xr, snd xr) in
+          if c =? 34 then Ok ([], r)
+          else if c =? 92 then
             match r with
-            | 48 :: 48 :: h :: l :: r' =>
-                match unhex h, unhex l with
-                | Some a, Some b => if a * 16 + b <? 32 then cont (a * 16 + b) r' else Err EValue
-                | _, _ => Err EValue
-                end
-            | _ => Err EValue
+            | [] => Err EValue
+            | e :: r1 =>
+                if e =? 34 then cont 34 r1
+                else if e =? 92 then cont 92 r1
+                else if e =? 98 then cont 8 r1
+                else if e =? 102 then cont 12 r1
+                else if e =? 110 then cont 10 r1
+                else if e =? 114 then cont 13 r1
+                else if e =? 116 then cont 9 r1
+                else if e =? 117 then
+                  match r1 with
+                  | z1 :: z2 :: h :: l :: r2 =>
+                      if (z1 =? 48) && (z2 =? 48) then
+                        match unhex h, unhex l with
+                        | Some a, Some b => if a * 16 + b <? 32 then cont (a * 16 + b) r2 else Err EValue
+                        | _, _ => Err EValue
+                        end
+                      else Err EValue
+                  | _ => Err EValue
+                  end
+                else Err EValue
             end
-          else Err EValue
-      | c :: r => if c <? 32 then Err EValue else do xr <- unquote_body fuel' r; Ok (c :: fst xr, snd xr)
+          else if c <? 32 then Err EValue
+          else cont c r
       end
   end.
 Definition unquote (s : bytes) : res (bytes * bytes) :=
   match s with
-  | 34 :: r => unquote_body (S (length r)) r
-  | _ => Err EValue
+  | c :: r => if c =? 34 then unquote_body (S (length r)) r else Err EValue
+  | [] => Err EValue
   end.
 
 Definition w_option := Eval vm_compute in bs "option".
@@ -342,68 +351,111 @@ Definition reserved_words : list bytes := Eval vm_compute in
   map bytes_of_string ["unknown"; "union"; "struct"; "tuple"; "byte"; "categorical"]%string.
 
 Section Parse.
-  Variable parse_ty : bytes -> res (rty * bytes).
+  Variable sub : bytes -> res (rty * bytes).
 
-  (* T (", " T)* up to (not including) the closing byte [close]; the empty list is allowed *)
+  (* T (", " T)* followed by the closing byte *)
   Fixpoint parse_list (fuel : nat) (close : Z) (s : bytes) : res (list rty * bytes) :=
     match fuel with
     | O => Err EFuel
     | S fuel' =>
-        match s with
-        | c :: r =>
-            if c =? close then Ok ([], r)
-            else
-              do tr <- parse_ty s;
-              match snd tr with
-              | c' :: r' =>
-                  if c' =? close then Ok ([fst tr], r')
-                  else match strip_prefix p_comma (snd tr) with
-                       | Some rest =>
-                           match rest with
-                           | c'' :: _ => if c'' =? close then Err EValue
-                                         else do lr <- parse_list fuel' close rest; Ok (fst tr :: fst lr, snd lr)
-                           | [] => Err EValue
-                           end
-                       | None => Err EValue
-                       end
-              | [] => Err EValue
-              end
+        do tr <- sub s;
+        match snd tr with
+        | c' :: r' =>
+            if c' =? close then Ok ([fst tr], r')
+            else match strip_prefix p_comma (snd tr) with
+                 | Some rest => do lr <- parse_list fuel' close rest; Ok (fst tr :: fst lr, snd lr)
+                 | None => Err EValue
+                 end
         | [] => Err EValue
         end
     end.
+  Definition parse_items (fuel : nat) (close : Z) (s : bytes) : res (list rty * bytes) :=
+    match s with
+    | c :: r => if c =? close then Ok ([], r) else parse_list fuel close s
+    | [] => Err EValue
+    end.
 
-  (* "key": T (", " "key": T)* up to the closing byte *)
+  (* "key": T (", " "key": T)* followed by the closing byte *)
   Fixpoint parse_fields (fuel : nat) (close : Z) (s : bytes) : res (list (bytes * rty) * bytes) :=
     match fuel with
     | O => Err EFuel
     | S fuel' =>
-        match s with
-        | c :: r =>
-            if c =? close then Ok ([], r)
-            else
-              do kr <- unquote s;
-              match strip_prefix p_colon (snd kr) with
-              | None => Err EValue
-              | Some s1 =>
-                  do tr <- parse_ty s1;
-                  match snd tr with
-                  | c' :: r' =>
-                      if c' =? close then Ok ([(fst kr, fst tr)], r')
-                      else match strip_prefix p_comma (snd tr) with
-                           | Some rest =>
-                               match rest with
-                               | c'' :: _ => if c'' =? close then Err EValue
-                                             else do lr <- parse_fields fuel' close rest;
-                                                  Ok ((fst kr, fst tr) :: fst lr, snd lr)
-                               | [] => Err EValue
-                               end
-                           | None => Err EValue
-                           end
-                  | [] => Err EValue
-                  end
-              end
-        | [] => Err EValue
+        do kr <- unquote s;
+        match strip_prefix p_colon (snd kr) with
+        | None => Err EValue
+        | Some s1 =>
+            do tr <- sub s1;
+            match snd tr with
+            | c' :: r' =>
+                if c' =? close then Ok ([(fst kr, fst tr)], r')
+                else match strip_prefix p_comma (snd tr) with
+                     | Some rest => do lr <- parse_fields fuel' close rest; Ok ((fst kr, fst tr) :: fst lr, snd lr)
+                     | None => Err EValue
+                     end
+            | [] => Err EValue
+            end
         end
+    end.
+  Definition parse_fielditems (fuel : nat) (close : Z) (s : bytes) : res (list (bytes * rty) * bytes) :=
+    match s with
+    | c :: r => if c =? close then Ok ([], r) else parse_fields fuel close s
+    | [] => Err EValue
+    end.
+
+  Definition opt_branch (r : bytes) : res (rty * bytes) :=
+    do tr <- sub r; if is_listlike (fst tr) then Err EValue else Ok (ROpt [] [] (fst tr), snd tr).
+  Definition brace_branch (fuel : nat) (r : bytes) : res (rty * bytes) :=
+    do fr <- parse_fielditems fuel 125 r; Ok (RRec [] [] (Some (map fst (fst fr))) (map snd (fst fr)), snd fr).
+  Definition paren_branch (fuel : nat) (r : bytes) : res (rty * bytes) :=
+    do lr <- parse_items fuel 41 r; Ok (RRec [] [] None (fst lr), snd lr).
+  Definition num_branch (s : bytes) : res (rty * bytes) :=
+    let (ds, rest) := span is_digit s in
+    match strip_prefix p_star rest with
+    | Some rest' => do tr <- sub rest'; Ok (RReg [] [] (Z_of_digits ds) (fst tr), snd tr)
+    | None => Err EValue
+    end.
+  Definition plain_word (w rest : bytes) : res (rty * bytes) :=
+    if bytes_eqb w w_var then
+      match strip_prefix p_star rest with
+      | Some rest' => do tr <- sub rest'; Ok (RList [] [] (fst tr), snd tr)
+      | None => Err EValue
+      end
+    else if bytes_eqb w p_string then Ok (t_string, rest)
+    else if bytes_eqb w p_bytes then Ok (t_bytes, rest)
+    else if bytes_eqb w p_char then Ok (t_char, rest)
+    else if bytes_eqb w p_byte then Ok (t_byte, rest)
+    else if bytes_eqb w n_unknown then Ok (RUnk [] [], rest)
+    else match prim_of_name w with
+         | Some dt => Ok (RNum [] [] dt, rest)
+         | None => Err EValue
+         end.
+  Definition bracket_branch (fuel : nat) (w rest1 : bytes) : res (rty * bytes) :=
+    if bytes_eqb w w_option then
+      do tr <- sub rest1;
+      match snd tr with
+      | c :: rest2 =>
+          if c =? 93 then (if is_listlike (fst tr) then Ok (ROpt [] [] (fst tr), rest2) else Err EValue)
+          else Err EValue
+      | [] => Err EValue
+      end
+    else if bytes_eqb w w_union then
+      do lr <- parse_items fuel 93 rest1; Ok (RUnion [] [] (fst lr), snd lr)
+    else if existsb (bytes_eqb w) reserved_words then Err EValue
+    else
+      let p := [(k_record, JStr w)] in
+      match rest1 with
+      | c :: rest2 =>
+          if c =? 34 then
+            do fr <- parse_fields fuel 93 rest1;
+            Ok (RRec p [] (Some (map fst (fst fr))) (map snd (fst fr)), snd fr)
+          else if c =? 93 then Ok (RRec p [] (Some []) [], rest2)     (* Name[] : read as a record *)
+          else do lr <- parse_list fuel 93 rest1; Ok (RRec p [] None (fst lr), snd lr)
+      | [] => Err EValue
+      end.
+  Definition word_branch (fuel : nat) (w rest : bytes) : res (rty * bytes) :=
+    match rest with
+    | c1 :: rest1 => if c1 =? 91 then bracket_branch fuel w rest1 else plain_word w rest
+    | [] => plain_word w rest
     end.
 End Parse.
 
@@ -412,66 +464,14 @@ Fixpoint parse_ty (fuel : nat) (s : bytes) {struct fuel} : res (rty * bytes) :=
   | O => Err EFuel
   | S fuel' =>
       let sub := parse_ty fuel' in
-      let n := S (length s) in
       match s with
       | [] => Err EValue
       | c :: r =>
-          if c =? 63 then                                   (* ?T *)
-            do tr <- sub r;
-            if is_listlike (fst tr) then Err EValue else Ok (ROpt [] [] (fst tr), snd tr)
-          else if c =? 123 then                             (* {"k": T, ...} *)
-            do fr <- parse_fields sub n 125 r;
-            Ok (RRec [] [] (Some (map fst (fst fr))) (map snd (fst fr)), snd fr)
-          else if c =? 40 then                              (* (T, ...) *)
-            do lr <- parse_list sub n 41 r; Ok (RRec [] [] None (fst lr), snd lr)
-          else if is_digit c then                           (* N * T *)
-            let (ds, rest) := span is_digit s in
-            match ds with
-            | 48 :: _ :: _ => Err EValue                    (* no leading zeros *)
-            | _ =>
-                match strip_prefix p_star rest with
-                | Some rest' => do tr <- sub rest'; Ok (RReg [] [] (Z_of_digits ds) (fst tr), snd tr)
-                | None => Err EValue
-                end
-            end
-          else if is_alpha_ c then
-            let (w, rest) := span is_alnum_ s in
-            match rest with
-            | 91 :: rest1 =>                                (* word[ ... *)
-                if bytes_eqb w w_option then
-                  do tr <- sub rest1;
-                  match snd tr with
-                  | 93 :: rest2 => if is_listlike (fst tr) then Ok (ROpt [] [] (fst tr), rest2) else Err EValue
-                  | _ => Err EValue
-                  end
-                else if bytes_eqb w w_union then
-                  do lr <- parse_list sub n 93 rest1; Ok (RUnion [] [] (fst lr), snd lr)
-                else if existsb (bytes_eqb w) reserved_words then Err EValue
-                else
-                  let p := [(k_record, JStr w)] in
-                  match rest1 with
-                  | 34 :: _ =>
-                      do fr <- parse_fields sub n 93 rest1;
-                      Ok (RRec p [] (Some (map fst (fst fr))) (map snd (fst fr)), snd fr)
-                  | 93 :: rest2 => Ok (RRec p [] (Some []) [], rest2)     (* Name[] : read as a record *)
-                  | _ => do lr <- parse_list sub n 93 rest1; Ok (RRec p [] None (fst lr), snd lr)
-                  end
-            | _ =>
-                if bytes_eqb w w_var then
-                  match strip_prefix p_star rest with
-                  | Some rest' => do tr <- sub rest'; Ok (RList [] [] (fst tr), snd tr)
-                  | None => Err EValue
-                  end
-                else if bytes_eqb w p_string then Ok (t_string, rest)
-                else if bytes_eqb w p_bytes then Ok (t_bytes, rest)
-                else if bytes_eqb w p_char then Ok (t_char, rest)
-                else if bytes_eqb w p_byte then Ok (t_byte, rest)
-                else if bytes_eqb w n_unknown then Ok (RUnk [] [], rest)
-                else match prim_of_name w with
-                     | Some dt => Ok (RNum [] [] dt, rest)
-                     | None => Err EValue
-                     end
-            end
+          if c =? 63 then opt_branch sub r                   (* ?T *)
+          else if c =? 123 then brace_branch sub fuel' r     (* {"k": T, ...} *)
+          else if c =? 40 then paren_branch sub fuel' r      (* (T, ...) *)
+          else if is_digit c then num_branch sub s           (* N * T *)
+          else if is_alpha_ c then let (w, rest) := span is_alnum_ s in word_branch sub fuel' w rest
           else Err EValue
       end
   end.
